@@ -166,11 +166,14 @@ Fixpoint upd_obj (h : heap) (i : nat) (f : obj -> obj) : heap :=
   | o :: r, S j => o :: upd_obj r j f
   end.
 
-(* [[DefineOwnProperty]] on one object *)
+(* [[DefineOwnProperty]] on one object.  A descriptor with both accessor and data fields never reaches
+   an internal method (ToPropertyDescriptor throws a TypeError): it is refused without effect. *)
+Definition vaa_checked (ext : bool) (cur : option prop) (d : desc) : option prop :=
+  if desc_wf d then ValidateAndApply ext cur d else None.
 Definition define_ok (k : key) (d : desc) (o : obj) : bool :=
-  isSome (ValidateAndApply (o_ext o) (find k (o_props o)) d).
+  isSome (vaa_checked (o_ext o) (find k (o_props o)) d).
 Definition define_obj (k : key) (d : desc) (o : obj) : obj :=
-  match ValidateAndApply (o_ext o) (find k (o_props o)) d with
+  match vaa_checked (o_ext o) (find k (o_props o)) d with
   | None => o
   | Some p => mkObj (o_proto o) (o_ext o) (put k p (o_props o))
   end.
@@ -397,8 +400,8 @@ Definition GojaDefine (fx : fixes) (ext : bool) (ev : option iprop) (d : desc) :
                      end)
               then None else Some ex)
         else (if negb (vp_configurable ex) &&
-                 ((isSome (d_get d) && negb (ofn_eqb (vp_getter ex) getterObj))
-                  || (isSome (d_set d) && negb (ofn_eqb (vp_setter ex) setterObj)))
+                 ((isSome (d_get d) && negb (ofn_eqb getterObj (vp_getter ex)))
+                  || (isSome (d_set d) && negb (ofn_eqb setterObj (vp_setter ex))))
               then None else Some ex)
     end in
   match checked with
@@ -527,10 +530,12 @@ Definition i_store_new (k : key) (v : iprop) (o : iobj) : iobj :=
   else mkIObj (i_proto o) (i_ext o) (put k v (i_vals o)) (names_add k (i_names o)) (i_syms o).
 
 (* defineOwnPropertyStr / defineOwnPropertySym *)
+Definition goja_checked (fx : fixes) (ext : bool) (ev : option iprop) (d : desc) : option iprop :=
+  if desc_wf d then GojaDefine fx ext ev d else None.      (* builtin_object.go:196 toPropertyDescriptor *)
 Definition i_define_ok (fx : fixes) (k : key) (d : desc) (o : iobj) : bool :=
-  isSome (GojaDefine fx (i_ext o) (i_getown o k) d).
+  isSome (goja_checked fx (i_ext o) (i_getown o k) d).
 Definition i_define_obj (fx : fixes) (k : key) (d : desc) (o : iobj) : iobj :=
-  match GojaDefine fx (i_ext o) (i_getown o k) d with
+  match goja_checked fx (i_ext o) (i_getown o k) d with
   | None => o
   | Some v => match i_getown o k with
               | None => i_store_new k v o
